@@ -186,7 +186,7 @@ pub fn layouts(n: usize, thorough: bool) -> Vec<Layout> {
     let mut v = Vec::new();
     let gaps = [Gap::None, Gap::Zeros, Gap::FakeMagic, Gap::UnindexedBlock];
     // (a) all arrangements x uniform gap kind x index forms
-    let forms: Vec<u8> = if thorough { vec![0, 1, 2, 3] } else { vec![0, 1] };
+    let forms: Vec<u8> = vec![0, 1, 2, 3];
     for (ai, arr) in arrangements(n).into_iter().enumerate() {
         for (gi, g) in gaps.iter().enumerate() {
             for &form in &forms {
@@ -247,7 +247,7 @@ pub fn layouts(n: usize, thorough: bool) -> Vec<Layout> {
 pub fn run() -> Report {
     let mut rep = Report::new("C03", "e1");
     let thorough = is_thorough();
-    let n = if thorough { 4 } else { 3 };
+    let n = if thorough { 5 } else { 4 };
     let btc = coin("bitcoin");
     let ls = layouts(n, thorough);
     rep.rule = format!("all n!*C(n+2,2) ordered arrangements of n={} blocks into <=3 files x gap kind (none / zeros / garbage with fake magic / unindexed block) x index storage form (log, compacted table, table+log overwrite, reopen), per-block gap products, file-number / data-offset VarInt boundary sweeps (sparse >4GiB offsets), file-name padding, junk index keys, foreign directory entries; every layout of the same logical chain must give the model's csvdump output (hence identical across layouts); non-trivial = distinct layout", n);
